@@ -1,8 +1,16 @@
 (* C06, sequential part: whole runs.  The specification interpreter of Oracle/C06Oracle.v accepts
    every run of the model (any capacity 2^k, any operation list), i.e. the model refines the FIFO;
    plus the corollaries stated in Props/C06.v. *)
-Require Import V.Base.MachineInt V.Generated.GenConsts V.Model.LogBase V.Model.Ring V.Spec.Fifo
-               V.Oracle.C06Oracle V.Proofs.RingArith V.Proofs.RingSeq V.Proofs.RingRender V.Proofs.RingSeqRun.
+Require Import V.Base.MachineInt.
+Require Import V.Generated.GenConsts.
+Require Import V.Model.LogBase.
+Require Import V.Model.Ring.
+Require Import V.Spec.Fifo.
+Require Import V.Oracle.C06Oracle.
+Require Import V.Proofs.RingArith.
+Require Import V.Proofs.RingSeq.
+Require Import V.Proofs.RingRender.
+Require Import V.Proofs.RingSeqRun.
 From Coq Require Import ZifyBool Lia.
 Open Scope Z_scope.
 
